@@ -320,6 +320,55 @@ func provesLE(fn *ssa.Function, at *ssa.BasicBlock, guards []Atom, e ssa.Value, 
 			}
 		}
 	}
+	// ceiling-division lemma: e = B*(i-k), k >= 1, under a dominating i <= E with
+	// E = (L + B - 1) / B and len(s) = L: (E-1)*B <= L-1, hence e < L whenever the access is reached
+	if m, ok := e.(*ssa.BinOp); ok && m.Op == token.MUL {
+		for _, pr := range [][2]ssa.Value{{m.X, m.Y}, {m.Y, m.X}} {
+			B := stripConv(pr[0])
+			sub, ok := stripConv(pr[1]).(*ssa.BinOp)
+			if !ok || sub.Op != token.SUB {
+				continue
+			}
+			if k, ok := constInt(sub.Y); !ok || k < 1 {
+				continue
+			}
+			i := stripConv(sub.X)
+			for _, g := range guards {
+				x, y, op := stripConv(g.X), stripConv(g.Y), g.Op
+				if sameValue(y, i, 0) {
+					x, y, op = y, x, swapOp(op)
+				}
+				if !sameValue(x, i, 0) || (op != token.LEQ && op != token.LSS) {
+					continue
+				}
+				q, ok := y.(*ssa.BinOp)
+				if !ok || q.Op != token.QUO || !sameValue(stripConv(q.Y), B, 0) {
+					continue
+				}
+				// numerator (L + B) - 1 or L + (B - 1)
+				num, ok := stripConv(q.X).(*ssa.BinOp)
+				if !ok {
+					continue
+				}
+				var L ssa.Value
+				if num.Op == token.SUB {
+					if k, ok := constInt(num.Y); ok && k == 1 {
+						if ad, ok := stripConv(num.X).(*ssa.BinOp); ok && ad.Op == token.ADD {
+							switch {
+							case sameValue(stripConv(ad.Y), B, 0):
+								L = ad.X
+							case sameValue(stripConv(ad.X), B, 0):
+								L = ad.Y
+							}
+						}
+					}
+				}
+				if L != nil && isLen(stripConv(L)) {
+					return true
+				}
+			}
+		}
+	}
 	// e = lo + c with the modular idiom
 	if b, ok := e.(*ssa.BinOp); ok && b.Op == token.ADD {
 		lo, cst := b.X, b.Y
